@@ -330,7 +330,11 @@ func (w *DispatchWorld) onDequeue(req queue.DequeueRequest, resp queue.DequeueRe
 		// C03 at the dispatcher: a second worker may receive the message only
 		// after the first lease ended (ack/nack/dead, expiry, operator mutation)
 		if other := w.inDeliver[it.ID]; other != nil && other != t {
+			// the first worker's lease expired while it was stalled mid-delivery:
+			// its settlement will fail, so the "at most max+1 sends" clause (which
+			// assumes that lease mutations succeed) does not apply to this message
 			w.Res.probe("dispatch.redelivered_while_first_worker_stalled")
+			dm.conflict = true
 		}
 		w.inDeliver[it.ID] = t
 	}
